@@ -1080,7 +1080,44 @@ def derive_footprints(sim, cases, d):
     return res
 
 
-def write_gen_footprints(derived):
+def rich_probe_scenario(c, tag):
+    L = rcase_scenario(c, "perm", tag)
+    L = L[:[i for i, l in enumerate(L) if l.startswith("save ")][0]]
+    rr = V.rng("C12probe%d" % c["id"])
+    for a, q in enumerate(c["steps"][-1]["pos"]):
+        L.append("pos %d %r %r %r" % (a + 1, q[0] + rr.uniform(0.3, 0.6), q[1] - rr.uniform(0.3, 0.6), q[2] + rr.uniform(0.3, 0.6)))
+    return L + ["footprints", "endcase %d" % c["id"]]
+
+
+def derive_rich_footprints(sim, cases, d):
+    """footprints of the work items of configurations OUTSIDE the model (other component / bias kinds): only their
+    independence is checked.  -> list of (case, comp fps, collect fps, bias fps, number of non-repeatable items)"""
+    res = []
+    for c in cases:
+        tag = "P%d" % c["id"]
+        open(os.path.join(d, tag + ".registry.txt"), "w").close()
+        rc, out, err = run_batch(sim, rich_probe_scenario(c, tag), d, timeout=300)
+        if "FPEND" not in out or not any(l.startswith("CONFIG err=ok") for l in out):
+            continue
+        fps = {"comp": [], "collect": [], "bias": []}
+        nrep = 0
+        for l in out:
+            if l.startswith("FP "):
+                w = l.split()
+                kind = "bias" if w[1] == "script" else w[1]
+                W = [t for t in l.split(" W=")[1].split(" R=")[0].split(",") if t]
+                R = [t for t in l.split(" R=")[1].split(",") if t]
+                if "NOTREPEATABLE" in l:
+                    nrep += 1
+                fps[kind].append((R, W))
+        res.append((c, fps["comp"], fps["collect"], fps["bias"], nrep))
+        for f in os.listdir(d):
+            if f.startswith(tag + "."):
+                os.remove(os.path.join(d, f))
+    return res
+
+
+def write_gen_footprints(derived, rich=()):
     L = ["(* GENERATED by props/C12/check.py from the rebuilt binary (c12sim `footprints`); do not edit. *)",
          "From Coq Require Import ZArith List Bool.", "From CV Require Import C12.SmpModel.", "Import ListNotations.", "",
          "Definition gen_probes : list probe := ["]
@@ -1098,6 +1135,14 @@ def write_gen_footprints(derived):
                                                                   coq_list([coq_fp(*f) for f in bias])))
     L.append(";\n".join(rows))
     L.append("].")
+    L += ["", "(* configurations outside the model (other component and bias kinds): derived footprints only *)",
+          "Definition gen_rich_probes : list probe := ["]
+    rrows = []
+    for c, comp, coll, bias, nrep in rich:
+        rrows.append("  mkProbe (mkCfg [] [] false false []) 0\n    %s\n    %s\n    %s" % (
+            coq_list([coq_fp(*f) for f in comp]), coq_list([coq_fp(*f) for f in coll]), coq_list([coq_fp(*f) for f in bias])))
+    L.append(";\n".join(rrows))
+    L.append("].")
     txt = "\n".join(L) + "\n"
     p = os.path.join(V.COQ, "Gen", "GenFootC12.v")
     os.makedirs(os.path.dirname(p), exist_ok=True)
@@ -1114,7 +1159,9 @@ def presetup():
     """before the Coq build: coq/Gen/GenFootC12.v from the freshly built binary"""
     sim = V.build_prog("c12sim", PROGS["c12sim"])
     r = V.rng("C12")
-    write_gen_footprints(derive_footprints(sim, probe_cases([gen_tcase(r, k) for k in range(12)]), V.scratch("C12p")))
+    d = V.scratch("C12p")
+    tcs = [gen_tcase(r, k) for k in range(12)]
+    write_gen_footprints(derive_footprints(sim, probe_cases(tcs), d), derive_rich_footprints(sim, [gen_rcase(r, k) for k in range(4)], d))
     V.coq_project()
 
 
@@ -1179,12 +1226,17 @@ def check(run):
     ]
     d = V.scratch("C12")
     gen = [gen_tcase(r, k) for k in range(200 if quick else 4000)]
+    rc = [gen_rcase(r, k) for k in range(50 if quick else 1200)]
     # footprints derived from the rebuilt binary -> coq/Gen/GenFootC12.v, BEFORE the proofs are checked
     derived = []
     try:
         sim0 = V.build_prog("c12sim", PROGS["c12sim"])
         derived = derive_footprints(sim0, probe_cases(gen), d)
-        nprobe = write_gen_footprints(derived)
+        rich = derive_rich_footprints(sim0, rc[:6 if quick else 60], d)
+        nprobe = write_gen_footprints(derived, rich)
+        run.dist("footprints: rich probes (independence only)", len(rich))
+        run.dist("footprints: rich items probed", sum(len(x[1]) + len(x[2]) + len(x[3]) for x in rich))
+        run.dist("footprints: rich items that do not repeat (writes only)", sum(x[4] for x in rich))
         run.cov["correspondence"]["footprint_probes"] = nprobe
         run.dist("footprints: probes derived from the binary", nprobe)
         run.dist("footprints: items probed", sum(len(x[3]) + len(x[4]) + len(x[5]) for x in derived if x[1] is not None))
@@ -1212,7 +1264,6 @@ def check(run):
     B = 200
     for b0 in range(0, len(tc), B):
         tie_part(run, r, model, sim, tc[b0:b0 + B], d)
-    rc = [gen_rcase(r, k) for k in range(50 if quick else 1200)]
     rich_part(run, r, sim, rc, d)
     # the library's own OpenMP modes x thread counts: every component kind once (round robin), then random mixtures
     lc = [gen_lcase(r, k, kinds=[sorted(set(LKINDS))[k % len(set(LKINDS))]]) for k in range(len(set(LKINDS)))]
